@@ -414,9 +414,11 @@ def scen_checksum(ctx, M):
             # fills a prefix of the buffer, leaves its tail as it was
             a = self.pos
             if isinstance(buf, (SymBuf, SymView)):
-                old = buf.snapshot()
+                while isinstance(buf, SymView) and buf.k is None:
+                    buf = buf.buf        # a whole-buffer view: same memory
                 if isinstance(buf, SymView):
-                    raise core.Unsupported('readinto a view')
+                    raise core.Unsupported('readinto a sliced view')
+                old = buf.snapshot()
                 n = h.vmin(old.sym_len(), N - a)
                 reads.append(n)
                 if ctx.truth(n > 0):
